@@ -89,6 +89,10 @@ def configs(rng, tier):
                                            "components": [dev("qi", {"i": ["external", "x"]}), dev("qj")]}, dev("qz", {"i": ["qsys", "y"]})]})
     # at the TOP level "external" and "expose" are ordinary component names (only inside a system simulation are they taken)
     out.append({"components": [dev("external", cb={"kind": "period", "p": P}), dev("expose", {"i": ["external", "o"]}), dev("plain", {"i": ["expose", "o"]})]})
+    # devices that ask to be called back AT ONCE (call_at == the tick's time): when a failure is reported in such a tick, a wakeup
+    # that is already due is left behind - it must not be served
+    out.append({"components": [dev("za", cb={"kind": "list", "delays": [0, 0, 0, 0, None]}), dev("zb", {"i": ["za", "o"]}), dev("zc", cb={"kind": "list", "delays": [0, P, 0, None]}),
+                               {"name": "zsys", "kind": "sys", "inputs": {"x": ["za", "o"]}, "expose": {}, "components": [dev("zi", {"i": ["external", "x"]}, cb={"kind": "list", "delays": [0, 0, None]})]}]})
     # independent devices (no wire between them), nothing asks for a callback
     out.append({"components": [dev("ia"), dev("ib"), dev("ic", {"i": ["ia", "o"]}), dev("id", {"i": ["ib", "o"]})]})
     if tier == "thorough":
